@@ -119,9 +119,38 @@ fn header_table<F: Fam>(out: &mut Out) {
     }
 }
 
+/// the public from_u8 constructors of every wire-numbered enum, over all 256 bytes
+fn code_tables(out: &mut Out) {
+    fn table(out: &mut Out, name: &str, f: &dyn Fn(u8) -> Option<String>) {
+        let rows: Vec<J> = (0..=255u8)
+            .map(|b| match guarded(|| f(b)) {
+                Ok(Some(n)) => json!([b, n]),
+                Ok(None) => json!([b, ""]),
+                Err(_) => json!([b, "panic"]),
+            })
+            .collect();
+        out.ev(json!({"ev": "CodeTable", "enum": name, "rows": rows}));
+    }
+    table(out, "v3.ConnectReturnCode", &|b| v3::ConnectReturnCode::from_u8(b).ok().map(|c| format!("{c:?}")));
+    table(out, "v3.SubscribeReturnCode", &|b| v3::SubscribeReturnCode::from_u8(b).ok().map(|c| format!("{c:?}")));
+    table(out, "Connack", &|b| v5::ConnectReasonCode::from_u8(b).map(|c| format!("{c:?}")));
+    table(out, "Puback", &|b| v5::PubackReasonCode::from_u8(b).map(|c| format!("{c:?}")));
+    table(out, "Pubrec", &|b| v5::PubrecReasonCode::from_u8(b).map(|c| format!("{c:?}")));
+    table(out, "Pubrel", &|b| v5::PubrelReasonCode::from_u8(b).map(|c| format!("{c:?}")));
+    table(out, "Pubcomp", &|b| v5::PubcompReasonCode::from_u8(b).map(|c| format!("{c:?}")));
+    table(out, "Suback", &|b| v5::SubscribeReasonCode::from_u8(b).map(|c| format!("{c:?}")));
+    table(out, "Unsuback", &|b| v5::UnsubscribeReasonCode::from_u8(b).map(|c| format!("{c:?}")));
+    table(out, "Disconnect", &|b| v5::DisconnectReasonCode::from_u8(b).map(|c| format!("{c:?}")));
+    table(out, "Auth", &|b| v5::AuthReasonCode::from_u8(b).map(|c| format!("{c:?}")));
+    table(out, "RetainHandling", &|b| v5::RetainHandling::from_u8(b).map(|c| format!("{c:?}")));
+    table(out, "PropertyId", &|b| v5::PropertyId::from_u8(b).ok().map(|c| format!("{c:?}")));
+    table(out, "QoS", &|b| mqtt_proto::QoS::from_u8(b).ok().map(|c| format!("{c:?}")));
+}
+
 pub fn record_strict(out: &mut Out, tier: &str, seed: u64) {
     header_table::<V3>(out);
     header_table::<V5>(out);
+    code_tables(out);
     let n = if tier == "thorough" { 9000 } else { 330 };
     let mut rng = Rng::new(seed ^ 0xC04);
     let mut b = Budget { big: 20, huge: 0 };
